@@ -775,13 +775,20 @@ MANIFEST = {
                   'section list and every code, the target of the last definition covering the code (range: last UTF-16 '
                   'unit plus offset mod 2^16; array: indexed by the offset), that Encoding::bytes_to_string segments a '
                   'concatenation of mapped prefix-free codes into exactly those codes, that UTF-16 decoding turns '
-                  'surrogate pairs into one scalar value and distributes over well-formed targets, and that the model of '
+                  'surrogate pairs into one scalar value and distributes over well-formed targets, that the model of '
                   'the CMap grammar gives a real outcome on every byte string (its loop fuel, linear in the input, is never '
-                  'exhausted; every repeated element parser consumes input).',
+                  'exhausted; every repeated element parser consumes input), and -- from the CMap TEXT -- that for every '
+                  'layout (blanks, line breaks with CR / LF / CR LF and comments, hex digit case, white space inside target '
+                  'strings and arrays, bare or bracketed single targets) and every well-formed section list the grammar model '
+                  'parses the text written by an independent renderer (Spec/CMapRender.v, from the syntax of the standard) '
+                  'back to exactly those sections (C15_parse_render), so that the decoded text of every string of defined '
+                  'codes is what the CMap defines, end to end from the text (C15_decodes_text).',
     'level_note': 'Trusted: Coq kernel; hand-written models of cmap.rs / cmap_parser.rs / bytes_to_string tied by '
                   'differential runs through get_font_encoding + decode_text + ToUnicodeCMap::get (the grammar model is tied to '
-                  'cmap_parser.rs by these runs only, no round-trip theorem); rangemap and encoding_rs '
+                  'cmap_parser.rs by these runs; the renderer of the round-trip theorem is extracted and writes the text of the '
+                  'case kind render, a second rendering in Python must agree byte for byte); layouts are line oriented up to '
+                  'the [ of an array (domain restriction, witnessed by C15_grammar_is_line_oriented); rangemap and encoding_rs '
                   'modelled by contract; extraction/OCaml driver; Rust harness. No axioms.',
-    'technique': 'Coq proof (fold invariant over definitions, segmentation by induction on the code list, fuel sufficiency of the parser model by a consumed-length invariant) + differential correspondence',
+    'technique': 'Coq proof (fold invariant over definitions, segmentation by induction on the code list, fuel sufficiency of the parser model by a consumed-length invariant, printer/parser round trip by explicit continuation with follow sets) + differential correspondence',
     'design_ref': 'DESIGN.md 6 C15',
 }
